@@ -632,6 +632,11 @@ def correspond(res, tier):
 # ------------------------------------------------------------------------------------------------------------------
 def search(res, tier, boost=False):
     """(iii) the consequences on the real code, plus larger meshes numerically."""
+    def vkey(kind, curve, family, elems):
+        # consequences of the same defect on the same input (known finding F13: meshes with elements flatter than 1e8)
+        if max(aspect(e) for e in elems) > 1e8:
+            return 'C13:extreme-aspect-not-positive-definite:%s:%s' % (curve, kind)
+        return 'C13:%s:%s:%s' % (kind, curve, family)
     from src.hierarchical_error_estimator import DummyElement
     from src.h_h2_error_estimator import HH2ErrorEstimator
     kept = _STATE.pop('kept', None)
@@ -651,7 +656,7 @@ def search(res, tier, boost=False):
         sign, _ = np.linalg.slogdet(A)
         res.count(('det', curve, family, repr(hist)), len(elems) > 1)
         if inq and not sign > 0:
-            res.violation('C13:determinant-not-positive:%s:%s' % (curve, family),
+            res.violation(vkey('determinant-not-positive', curve, family, elems),
                           dict(curve=curve, family=family, history=hist, slogdet_sign=float(sign)))
         if blocks_done >= n_blocks:
             continue
@@ -667,14 +672,14 @@ def search(res, tier, boost=False):
                         scaling_estim=scal, aspect=aspect(e))
             ok_q = True
             if ok_q and not all(s > 0 for s in scal):
-                res.violation('C13:scaling-estim-not-positive:%s:%s' % (curve, family), desc)
+                res.violation(vkey('scaling-estim-not-positive', curve, family, elems), desc)
             lines.append(pd_line(S))
-            metas.append((ok_q, curve, family, desc))
+            metas.append((ok_q, curve, family, desc, vkey('child-block-not-positive-definite', curve, family, elems)))
     outs = run_driver(lines) if lines else []
-    for o, (ok_q, curve, family, desc) in zip(outs, metas):
+    for o, (ok_q, curve, family, desc, ckey) in zip(outs, metas):
         res.bump('child_blocks_certified' if o.startswith('ok') else 'child_blocks_not_certified')
         if o.startswith('notpd') and ok_q:
-            res.violation('C13:child-block-not-positive-definite:%s:%s' % (curve, family), dict(desc, driver=o))
+            res.violation(ckey, dict(desc, driver=o))
     if worst_scaling < float('inf'):
         res.notes['smallest_scaling_estim_over_trace'] = worst_scaling
 
@@ -711,10 +716,10 @@ def search(res, tier, boost=False):
         res.bump('hh2_fine_matrices_certified' if o.startswith('ok') else 'hh2_fine_matrices_not_certified')
         fine_inq = inq
         if fine_inq and o.startswith('notpd'):
-            res.violation('C13:hh2-fine-matrix-not-positive-definite:%s:%s' % (curve, family),
+            res.violation(vkey('hh2-fine-matrix-not-positive-definite', curve, family, elems),
                           dict(desc, driver=o, matrix=[[float(v).hex() for v in r] for r in Af]))
         if fine_inq and not (math.isfinite(float(val)) and float(val) >= 0):
-            res.violation('C13:hh2-value-not-real:%s:%s' % (curve, family), desc)
+            res.violation(vkey('hh2-value-not-real', curve, family, elems), desc)
         res.sample(dict(kind='h-h/2', **desc, driver=o), limit=12)
 
     # larger meshes (up to the ~500 elements of the quantifier): numerically only (eigvalsh of the scaled symmetric part)
